@@ -241,7 +241,8 @@ pub trait Farm:
         self.validate_contract_state(storage_cache.contract_state, &storage_cache.farm_token_id);
         Wrapper::<Self>::generate_aggregated_rewards(self, &mut storage_cache);
 
-        let boosted_rewards = self.claim_only_boosted_payment(user);
+        let boosted_rewards = Wrapper::<Self>::calculate_boosted_rewards(self, user);
+        storage_cache.reward_reserve -= &boosted_rewards;
         let boosted_rewards_payment =
             EsdtTokenPayment::new(self.reward_token_id().get(), 0, boosted_rewards);
 
